@@ -21,6 +21,11 @@
  *   K hi lo b1 b2 ..           vbi_dvb_mux_cor until the frame is used up, buffer sizes b1 b2 .. cyclically
  *                                                                     -> {"a":"csend","ok":..,"out":[bytes],"calls":n}
  *   X                          vbi_dvb_mux_reset                      -> {"a":"mreset"}
+ *   D did                      vbi_dvb_mux_set_data_identifier (between any two calls)  -> {"a":"setdid","req":did,"ok":..,"did":getter}
+ *   Y min max                  vbi_dvb_mux_set_pes_packet_size                          -> {"a":"setsize","req":[min,max],"ok":..,"min":getter,"max":getter}
+ *   G hi lo b [*]              ONE vbi_dvb_mux_cor call on the pending frame with a b byte buffer (with *: repeated until
+ *                              the frame is used up), one line per call -> {"a":"cpart","b":b,"out":[bytes],"ok":..,"left":sliced_left}
+ *                              the frame stays pending until left = 0 or a call failed; without a pending frame G prints nothing
  * Watchdog: a command that does not return within 20 s ends the process with exit code 95 after printing
  * {"a":"watchdog"}.
  */
@@ -128,6 +133,9 @@ static unsigned unhex(const char *p, uint8_t **dst)
 static vbi_dvb_mux *mx;
 static vbi_sliced frame[80];
 static unsigned frame_n;
+static const vbi_sliced *gs;	/* G: the frame being handed to the coroutine call by call */
+static unsigned gs_left;
+static int g_active;
 static uint8_t rawbuf[34 * 720];
 static vbi_sampling_par sp;
 static int npk;
@@ -185,7 +193,7 @@ int main(void)
 			if (mx) vbi_dvb_mux_delete(mx);
 			dx = NULL; mx = NULL;
 			free(stream); stream = NULL; stream_len = stream_pos = 0;
-			frame_n = 0;
+			frame_n = 0; g_active = 0;
 			init_raw(132, 720);
 			printf("{\"reset\":1}\n");
 			break;
@@ -282,7 +290,7 @@ int main(void)
 			if (!mx) { printf("{\"a\":\"mux\",\"ok\":false}\n"); break; }
 			ok1 = vbi_dvb_mux_set_data_identifier(mx, did);
 			ok2 = vbi_dvb_mux_set_pes_packet_size(mx, mn, mxs);
-			frame_n = 0;
+			frame_n = 0; g_active = 0;
 			printf("{\"a\":\"mux\",\"ok\":true,\"ts\":%s,\"pid\":%u,\"did_ok\":%s,\"did\":%u,\"size_ok\":%s,\"min\":%u,\"max\":%u}\n",
 			       !strcmp(kind, "ts") ? "true" : "false", pid, ok1 ? "true" : "false", vbi_dvb_mux_get_data_identifier(mx),
 			       ok2 ? "true" : "false", vbi_dvb_mux_get_min_pes_packet_size(mx), vbi_dvb_mux_get_max_pes_packet_size(mx));
@@ -361,6 +369,49 @@ int main(void)
 			out("],\"ok\":%s,\"calls\":%u,\"left\":%u}", ok ? "true" : "false", calls, s_left);
 			flush_line();
 			frame_n = 0;
+			break;
+		}
+		case 'D': {
+			unsigned did = 0;
+			vbi_bool ok;
+			sscanf(p, "%u", &did);
+			if (!mx) break;
+			ok = vbi_dvb_mux_set_data_identifier(mx, did);
+			printf("{\"a\":\"setdid\",\"req\":%u,\"ok\":%s,\"did\":%u}\n", did, ok ? "true" : "false",
+			       vbi_dvb_mux_get_data_identifier(mx));
+			break;
+		}
+		case 'Y': {
+			unsigned mn = 0, mxs = 0;
+			vbi_bool ok;
+			sscanf(p, "%u %u", &mn, &mxs);
+			if (!mx) break;
+			ok = vbi_dvb_mux_set_pes_packet_size(mx, mn, mxs);
+			printf("{\"a\":\"setsize\",\"req\":[%u,%u],\"ok\":%s,\"min\":%u,\"max\":%u}\n", mn, mxs, ok ? "true" : "false",
+			       vbi_dvb_mux_get_min_pes_packet_size(mx), vbi_dvb_mux_get_max_pes_packet_size(mx));
+			break;
+		}
+		case 'G': {
+			/* the frame handed to the coroutine call by call: the sliced pointer / count persist between G commands */
+			unsigned hi = 0, lo = 0, bl = 4096, calls = 0, i;
+			int rep;
+			sscanf(p, "%u %u %u", &hi, &lo, &bl);
+			rep = NULL != strchr(p, '*');
+			if (!mx || 0 == frame_n) break;
+			if (!g_active) { gs = frame; gs_left = frame_n; g_active = 1; }
+			do {
+				unsigned left = bl;
+				uint8_t *buf = malloc(bl ? bl : 1), *bp = buf;
+				vbi_bool ok = vbi_dvb_mux_cor(mx, &bp, &left, &gs, &gs_left, -1, rawbuf, &sp, ((int64_t) hi << 30) | lo);
+				out("{\"a\":\"cpart\",\"b\":%u,\"out\":[", bl);
+				if (ok)
+					for (i = 0; i < bl - left; ++i)
+						out("%s%u", i ? "," : "", buf[i]);
+				out("],\"ok\":%s,\"left\":%u}", ok ? "true" : "false", gs_left);
+				flush_line();
+				free(buf);
+				if (!ok || 0 == gs_left || ++calls > 200000) { g_active = 0; frame_n = 0; break; }
+			} while (rep);
 			break;
 		}
 		case 'X':
